@@ -66,6 +66,14 @@ Proof. vm_compute. reflexivity. Qed.
 Example LH_roundtrip_unnamed : M_parse U0 F1 (M_explain_gsub U0 F1 LH) = POk LH.
 Proof. vm_compute. reflexivity. Qed.
 
+Definition LP3 : list lookup :=
+  [ mkLookup 3 2 [Pos (Gpos3_1 [1; 4] [((0, -3), (10, 0)); ((-32768, 32767), (1, 1))]%Z); Pos (Gpos3_1 [2] [((5, 6), (7, 8))]%Z)];
+    mkLookup 1 0 [Gpos1_2 [8] [Some (mkV 1 2 3)]];
+    mkLookup 3 0 [Pos (Gpos3_1 [7] [((0, 0), (0, 0))]%Z)] ].
+Example LP3_wf : forallb (gpos_lookup_wf_all F0) LP3 = true.  Proof. vm_compute. reflexivity. Qed.
+Example LP3_roundtrip : M_parse U0 F0 (M_explain_gpos U0 F0 LP3) = POk LP3.
+Proof. vm_compute. reflexivity. Qed.
+
 Example LG_wf : forallb (gsub_lookup_wf F0) LG = true.  Proof. vm_compute. reflexivity. Qed.
 Example LP_wf : forallb (gpos_lookup_wf F0) LP = true.  Proof. vm_compute. reflexivity. Qed.
 Example LG_wf1 : forallb (gsub_lookup_wf F1) LG = true.  Proof. vm_compute. reflexivity. Qed.
